@@ -433,8 +433,10 @@ def _starting_labels(ctx, f, fit):
 
     def from_result(t):
         """position i when t is item i of _get_starting_labels(...)"""
-        if t[0] == "item" and t[1][0] == "call" and t[1][1] == GSL:
-            return t[2]
+        from ..tutil import positional
+        ps_ = positional(t)
+        if ps_ and ps_[0][0] == "call" and ps_[0][1] == GSL:
+            return ps_[1]
         return None
 
     stored = {}
